@@ -1,0 +1,61 @@
+//! Verification hooks: a read-only snapshot of the runtime state of a
+//! [`Framework`](crate::Framework) and a log of the internal steps taken by the
+//! most recent call to `trigger_events`. Only compiled with the `verif` feature.
+
+use crate::event::Event;
+
+/// One internal step of a call to `trigger_events`.
+#[derive(Debug, Clone, PartialEq)]
+pub enum VerifStep {
+    /// An event (external or internal) is delivered to a machine. `ext` is the
+    /// 1-based index of the external event being processed, or `usize::MAX`
+    /// during the signal round at the end of the call.
+    Transition {
+        ext: usize,
+        machine: usize,
+        event: Event,
+        state_before: usize,
+    },
+    /// The sampled target (if any) of the preceding delivery to a machine that
+    /// has not ended.
+    Target {
+        machine: usize,
+        target: Option<usize>,
+    },
+    /// The action of `state` is scheduled for the machine.
+    Schedule { machine: usize, state: usize },
+    /// The pending action of the machine is withdrawn (limit reached).
+    Withdraw { machine: usize },
+}
+
+/// Runtime state of one machine.
+#[derive(Debug, Clone, PartialEq)]
+pub struct VerifMachine<D> {
+    pub current_state: usize,
+    pub state_limit: u64,
+    pub padding_sent: u64,
+    pub normal_sent: u64,
+    pub blocking_duration: D,
+    pub counter_a: u64,
+    pub counter_b: u64,
+}
+
+/// A pending signal.
+#[derive(Debug, Clone, Copy, PartialEq, Eq)]
+pub enum VerifSignal {
+    None,
+    All,
+    AllExcept(usize),
+}
+
+/// Runtime state of the framework.
+#[derive(Debug, Clone)]
+pub struct VerifSnapshot<T: crate::time::Instant> {
+    pub machines: Vec<VerifMachine<T::Duration>>,
+    pub normal_sent_packets: u64,
+    pub padding_sent_packets: u64,
+    pub blocking_duration: T::Duration,
+    pub blocking_started: T,
+    pub blocking_active: bool,
+    pub signal_pending: VerifSignal,
+}
